@@ -47,7 +47,7 @@ def gen_name(rng):
     return "fallback name"
 
 
-FIXED = ['a  b  c', '   x   y', 'a"b', '"', '""', 'a""b', 'x"', '"x', '"""', ' lead', '  two lead', '-dash', '-', 'a b', 'a  b', 'semi;colon', 'a=b', 'Type=dir; x',
+FIXED = ['-la', '-a b', '-2024', '-x', '-l -a', 'a  b  c', '   x   y', 'a"b', '"', '""', 'a""b', 'x"', '"x', '"""', ' lead', '  two lead', '-dash', '-', 'a b', 'a  b', 'semi;colon', 'a=b', 'Type=dir; x',
          'a -> b', '226 done', '226-more', '150', '2', 'back\\slash', 'per%cent', 'tab\there', 'é', '😀', 'nb sp', ' lead-nbsp',
          'C:', 'a:b', '~', '*', '?', '.hidden', 'dots...', 'Jan 01 00:00 x', '-rw-r--r-- 1 a a 0 Jan 01 00:00 x', 'x' * 150]
 
@@ -137,6 +137,25 @@ async def one_name(net, hyg, plan):
                 names = sorted(str(p) for p, info in listed)
                 if names != [str(f)]:
                     viol.append({"key": f"{kind}-name-differs", "msg": f"{kind} of {str(d)!r}: got {names}, expected [{str(f)!r}]"})
+        # 4b the same through relative spellings from the parent directory
+        ok, _ = await guarded("cwd-parent", c.change_directory(pp))
+        if ok:
+            rel = pathlib.PurePosixPath(name)
+            for kind, kw in (("mlsd-relative", {}), ("list-relative", {"raw_command": "LIST"})):
+                ok, listed = await guarded(kind, c.list(rel, **kw))
+                if ok:
+                    mon["listing_names"] += 1
+                    names = sorted(str(p) for p, info in listed)
+                    if names != [str(rel / name)]:
+                        viol.append({"key": f"{kind}-name-differs",
+                                     "msg": f"{kind} of {str(rel)!r} from {str(pp)!r}: got {names}, expected [{str(rel / name)!r}]"})
+            ok, info = await guarded("mlst-relative", c.stat(rel / name))
+            if ok and (info.get("type") != "file" or str(info.get("size")) != str(len(payload))):
+                viol.append({"key": "mlst-relative-wrong-object", "msg": f"stat({str(rel / name)!r}) from {str(pp)!r} -> {info}"})
+            ok, info = await guarded("mlst-relative-dir", c.stat(rel))
+            if ok and info.get("type") != "dir":
+                viol.append({"key": "mlst-relative-wrong-object", "msg": f"stat({str(rel)!r}) from {str(pp)!r} -> {info}"})
+            await guarded("cwd-root2", c.change_directory("/"))
         # 5 stat
         ok, info = await guarded("mlst", c.stat(f))
         if ok and (info.get("type") != "file" or str(info.get("size")) != str(len(payload))):
